@@ -43,6 +43,9 @@ func init() {
 			{ID: "R19o", Floor: 1, Doc: "car list prints every section of the scan: from a successful Next, the next Next is not reachable without a print to the output", Run: ruleR19o},
 			{ID: "R19p", Floor: 1, Doc: "car concat copies the whole payload of every input: io.Copy to the end of the payload reader (or CopyN of a length taken from the header / file size), never a length found by inspecting the bytes — trailing zero bytes can be block data", Run: ruleR19p},
 			{ID: "R19q", Floor: 1, Doc: "car create writes a new archive: the roots it opens its destination with are the placeholder it computed, never something read back from a file — a destination left by another run must be refused (mismatching header), not resumed with its old blocks in the output", Run: ruleR19q},
+			{ID: "R19r", Floor: 1, Doc: "`car filter --append` never starts its output over (= R06p)", Run: ruleR06p},
+			{ID: "R19s", Floor: 1, Doc: "a command that can emit its product on standard output prints nothing else there: no function of cmd/car that holds os.Stdout as an output stream calls fmt.Print/Printf/Println", Run: ruleR19s},
+			{ID: "R19t", Floor: 1, Doc: "get-dag reads matched large-bytes nodes to the end: the WalkMatching visitor of writeCarV2 copies AsLargeBytes() of the matched node (the leaf blocks of a reified file are loaded only when its bytes are read)", Run: ruleR19t},
 		},
 	})
 }
@@ -139,7 +142,7 @@ func callersWritePragmaFirst(c *Ctx, fn *ssa.Function, w ssa.Value) bool {
 	for _, g := range c.RepoFuncs() {
 		eachInstr(g, func(in ssa.Instruction) {
 			ci, ok := in.(ssa.CallInstruction)
-			if !ok || ci.Common().StaticCallee() != fn {
+			if !ok || staticTarget(ci.Common()) != fn {
 				return
 			}
 			n++
@@ -484,39 +487,60 @@ func ruleR19d(c *Ctx, r *Report) {
 		}
 		for _, hw := range hws {
 			recv := hw.Common().Args[0]
-			// the receiver is a load of a local Header cell
-			u, ok := recv.(*ssa.UnOp)
-			if !ok {
-				bad = "header value shape not recognised"
-				continue
-			}
-			al, ok := u.X.(*ssa.Alloc)
-			if !ok {
-				bad = "header value shape not recognised"
-				continue
-			}
-			for _, st := range storesTo(al) {
-				cl, _ := callOf(st.Val)
-				if cl == nil || !funcIs(calleeFunc(cl.Common()), modV2, "", "NewHeader") {
-					bad = "the output header is not built by carv2.NewHeader(payload size): offsets copied from the source header are wrong for the compact output"
-					continue
-				}
-				if !loadsField(canon(cl.Call.Args[0]), modV2, "Header", "DataSize") {
-					bad = "NewHeader is not given the payload size (Header.DataSize)"
-				}
-			}
-			// field stores: only IndexOffset = 0
-			if al.Referrers() != nil {
-				for _, ref := range *al.Referrers() {
-					if fa, ok := ref.(*ssa.FieldAddr); ok {
-						for _, st := range storesTo(fa) {
-							k, isK := constInt(st.Val)
-							if !fieldAddrIs(fa, modV2, "Header", "IndexOffset") || !isK || k != 0 {
-								bad = "the output header is modified other than IndexOffset = 0"
+			// the receiver is a load of a local Header cell, possibly a copy (of a copy) of the cell
+			// that received NewHeader: by-value helpers that return the updated header leave such chains
+			cells := map[*ssa.Alloc]bool{}
+			var work []ssa.Value
+			work = append(work, recv)
+			newHdr := 0
+			for len(work) > 0 && bad == "" {
+				v := work[len(work)-1]
+				work = work[:len(work)-1]
+				for _, leaf := range phiLeaves(v) {
+					if cl, _ := callOf(leaf); cl != nil {
+						if !funcIs(calleeFunc(cl.Common()), modV2, "", "NewHeader") {
+							bad = "the output header is not built by carv2.NewHeader(payload size): offsets copied from the source header are wrong for the compact output"
+						} else if !loadsField(canon(cl.Call.Args[0]), modV2, "Header", "DataSize") {
+							bad = "NewHeader is not given the payload size (Header.DataSize)"
+						} else {
+							newHdr++
+						}
+						continue
+					}
+					u, ok := leaf.(*ssa.UnOp)
+					if !ok {
+						bad = "header value shape not recognised"
+						continue
+					}
+					al, ok := u.X.(*ssa.Alloc)
+					if !ok {
+						bad = "header value shape not recognised"
+						continue
+					}
+					if cells[al] {
+						continue
+					}
+					cells[al] = true
+					for _, st := range storesTo(al) {
+						work = append(work, st.Val)
+					}
+					// field stores: only IndexOffset = 0
+					if al.Referrers() != nil {
+						for _, ref := range *al.Referrers() {
+							if fa, ok := ref.(*ssa.FieldAddr); ok {
+								for _, st := range storesTo(fa) {
+									k, isK := constInt(st.Val)
+									if !fieldAddrIs(fa, modV2, "Header", "IndexOffset") || !isK || k != 0 {
+										bad = "the output header is modified other than IndexOffset = 0"
+									}
+								}
 							}
 						}
 					}
 				}
+			}
+			if bad == "" && newHdr == 0 {
+				bad = "the output header is not built by carv2.NewHeader(payload size): offsets copied from the source header are wrong for the compact output"
 			}
 		}
 		r.Check(bad == "", key, pos, "output header = NewHeader(DataSize), optionally IndexOffset = 0", bad)
